@@ -1,7 +1,7 @@
 #!/bin/bash
 # run every check against every behaviour-preserving variant in benign/ ; prints only alarms
 cd "$(dirname "$0")/.."
-for p in benign/*.diff; do
+for p in ${PATCHES:-benign/*.diff}; do
   D=$(mktemp -d /tmp/scr.XXXXXX)
   rsync -a --exclude target --exclude .git --exclude _seed /repo/ "$D/"
   if ! (cd "$D" && patch -p1 -s < "$OLDPWD/$p" 2>/dev/null); then echo "== $p: does not apply"; rm -rf "$D"; continue; fi
